@@ -80,6 +80,7 @@ def step (st : St) (line : String) : St × String :=
     | some k, some a => (.lq (LQ.new k 0 a), "ok")
     | _, _ => (.none, "bad-op")
   | "new" :: _ => (.none, "bad-op")      -- an ill-formed `new` leaves no queue
+  | "stress" :: rest => if C13O.stressOk ("stress" :: rest) then (.none, "ok") else (.none, "bad-op")
   | "cnew" :: rest =>
     let r := C13O.step C13O.St.none (" ".intercalate ("new" :: rest))
     (match r.1 with
